@@ -30,6 +30,7 @@ import os
 import re
 from . import machine_corr as MC
 from . import prog_core_gen as PG
+from . import common
 from .common import hexs, unhex, pmap, crashed
 
 LEAN_MODULES = ["GardenVerif.Props.C26"]
@@ -150,6 +151,49 @@ def gen_suite(rng, in_file_dup):
 
 def failed_multiset(stdout):
     return sorted((m.group(1), m.group(3) if m.group(3) is not None else "<no message>") for m in FAILED.finditer(stdout))
+
+
+def sigint_probe(scratch, tag, tests, hang_name):
+    """Run `garden test` on a file whose test `hang_name` prints a marker and spins; wait for the marker, send ONE
+    SIGINT, collect exit status and output. -> dict(status=ok|inconclusive, rc, stdout, src)"""
+    import signal
+    import subprocess
+    import time
+    src = "\n".join(tests)
+    path = os.path.join(scratch, "sigint_%s.gdn" % tag)
+    outp = path + ".out"
+    with open(path, "w") as f:
+        f.write(src)
+    with open(outp, "w") as out:
+        p = subprocess.Popen([common.GARDEN, "test", path], stdout=out, stderr=subprocess.PIPE,
+                             preexec_fn=common._limits(3))
+    marker = hang_name + " started"
+    t0 = time.time()
+    seen = False
+    while time.time() - t0 < 180 and p.poll() is None:
+        if marker in open(outp).read():
+            seen = True
+            break
+        time.sleep(0.1)
+    if not seen:
+        p.kill()
+        p.wait()
+        return dict(status="inconclusive", why="marker never printed", src=src, stdout=open(outp).read())
+    time.sleep(0.2)
+    p.send_signal(signal.SIGINT)
+    try:
+        p.wait(timeout=180)
+    except subprocess.TimeoutExpired:
+        p.kill()
+        p.wait()
+        return dict(status="inconclusive", why="did not stop within 180 s of SIGINT", src=src, stdout=open(outp).read())
+    so = open(outp).read()
+    for q in (path, outp):
+        try:
+            os.remove(q)
+        except OSError:
+            pass
+    return dict(status="ok", rc=p.returncode, stdout=so, src=src)
 
 
 FAILED = re.compile(r"^Failed: (\S+)(?: (\S+:\d+))?\n(?:  (.*)\n)?", re.M)
@@ -395,6 +439,40 @@ def run(ctx):
     ctx.cov["suite_invocations"] = n_suite_runs
     ctx.cov["suite_invocations_selecting_duplicate_names"] = n_dup_sel
     ctx.cov["suites_where_a_later_duplicate_fails"] = n_late_fail
+
+
+    # ------------------------------------------------------------------ a test interrupted by SIGINT (Ctrl-C, CI watchdog)
+    # The interrupted test was selected and did not pass: the run must not look green. (HEAD: the interrupted test is
+    # recorded with `Interrupted`, printed as `Failed: name`, counted as failed, the remaining tests are not run, exit 1;
+    # the model's `runTestsWith` records `(name, interrupted)` and stops in the same way.)
+    quick_t = "test %s {\n  assert(1 + 1 == 2)\n}\n"
+    hang_t = "test %s {\n  println(\"%s started\")\n  let i = 0\n  while True { i += 1 }\n}\n"
+    sig_cases = [("mid", [quick_t % "a_quick", hang_t % ("b_hangs", "b_hangs"), quick_t % "c_after"], "b_hangs", 1),
+                 ("first", [hang_t % ("a_hangs", "a_hangs"), quick_t % "b_after"], "a_hangs", 0)]
+    n_sig = 0
+    for r, (tag, tests_, hang, n_before) in zip(pmap(lambda c: sigint_probe(scratch, c[0], c[1], c[2]), sig_cases), sig_cases):
+        if r["status"] != "ok":
+            ctx.cov.setdefault("sigint_probes_inconclusive", []).append(r.get("why"))
+            continue
+        n_sig += 1
+        failed, last = parse_cli(r["stdout"])
+        replay = dict(src=r["src"], how="garden test FILE; wait for `%s started`; send one SIGINT" % hang, rc=r["rc"],
+                      stdout=r["stdout"][-800:])
+        ctx.case(("sigint", tag), True)
+        if crashed(r["rc"]) and r["rc"] != -2:
+            ctx.fail("C26/crash", "`garden test` crashed after SIGINT (rc %d)" % r["rc"], **replay)
+        elif r["rc"] == 0:
+            ctx.fail("C26/exit-status", "exit status 0 although the selected test %s was interrupted and did not pass"
+                     % hang, **replay)
+        elif r["rc"] == 1:
+            if hang not in failed:
+                ctx.fail("C26/summary-counts", "the interrupted test %s has no `Failed:` line" % hang, **replay)
+            want = expected_summary(n_before + 1, 1 + sum(1 for n in failed if n != hang))
+            if last != want:
+                ctx.fail("C26/summary-counts", "summary line %r after the interrupt, expected %r (the interrupted test "
+                         "counted as failed)" % (last, want), **replay)
+        # any other non-zero status (e.g. killed by the signal, 130) is an honest non-green outcome
+    ctx.cov["sigint_probes"] = n_sig
 
     # ------------------------------------------------------------------ correspondence
     corr = []
